@@ -91,7 +91,7 @@ theorem top_le_all {cur : Frame} {rest : List Frame} (h : Antitone (cur :: rest)
   · exact le_refl _
   · exact (antitone_cons.1 h).1 g hg
 
-theorem childFlags_le (P : Params) (cur rq : CallFlags) (safe : Bool) : childFlags P cur rq safe ≤ cur :=
+theorem childFlags_le (P : Params) (tk : Bool) (cur rq : CallFlags) (safe : Bool) : childFlags P tk cur rq safe ≤ cur :=
   inter_le_left _ _
 
 /-- Invariant 1: the stack, and the stack recorded in every event, is antitone. -/
@@ -120,11 +120,11 @@ theorem step_invAnti (P : Params) (s : State) (i : Instr) (h : InvAnti s) : InvA
           · rw [primEvents_stack hev, hst]; exact ha
           · exact he ev hev
         · exact ⟨by simpa [halt, hst] using ha, he⟩
-      | call p rq t =>
+      | call p tk rq t =>
         simp only
         split
         · refine ⟨?_, ?_⟩
-          · simp only [hst]; exact antitone_push _ (childFlags_le _ _ _ _) ha
+          · simp only [hst]; exact antitone_push _ (childFlags_le _ _ _ _ _) ha
           · intro ev hev
             rcases List.mem_cons.1 hev with rfl | hev
             · simpa [hst] using ha
@@ -210,7 +210,7 @@ theorem step_invTop (P : Params) (k : EffKind) (s : State) (i : Instr) (hq : i.g
           · rw [hst] at hev; exact primEvents_top (hq p rfl) hhas hev hk
           · exact h ev hev hk
         · exact h
-      | call p rq t =>
+      | call p tk rq t =>
         simp only
         split
         · rename_i hc
@@ -267,11 +267,15 @@ theorem safeOk_push {st : List Frame} (child : Frame) (h : SafeOk st)
 theorem safeOk_tail {f : Frame} {st : List Frame} (h : SafeOk (f :: st)) : SafeOk st :=
   fun g hg => h g (List.mem_cons_of_mem _ hg)
 
-theorem childFlags_safe (P : Params) (hP : P.safeDrop.write = true ∧ P.safeDrop.notify = true) (cur rq : CallFlags) :
-    (childFlags P cur rq true).write = false ∧ (childFlags P cur rq true).notify = false := by
-  simp [childFlags, inter, minus, hP.1, hP.2]
+/-- both call paths drop WriteStates and AllowNotify for safe methods. -/
+def Params.SafeDrops (P : Params) : Prop :=
+  (P.safeDrop.write = true ∧ P.safeDrop.notify = true) ∧ (P.safeDropToken.write = true ∧ P.safeDropToken.notify = true)
 
-theorem step_invSafe (P : Params) (hP : P.safeDrop.write = true ∧ P.safeDrop.notify = true)
+theorem childFlags_safe (P : Params) (hP : P.SafeDrops) (tk : Bool) (cur rq : CallFlags) :
+    (childFlags P tk cur rq true).write = false ∧ (childFlags P tk cur rq true).notify = false := by
+  cases tk <;> simp [childFlags, inter, minus, hP.1.1, hP.1.2, hP.2.1, hP.2.2]
+
+theorem step_invSafe (P : Params) (hP : P.SafeDrops)
     (s : State) (i : Instr) (h : InvSafe s) : InvSafe (step P s i) := by
   obtain ⟨ha, he⟩ := h
   unfold step
@@ -290,7 +294,7 @@ theorem step_invSafe (P : Params) (hP : P.safeDrop.write = true ∧ P.safeDrop.n
           · rw [primEvents_stack hev]; exact ha
           · exact he ev hev
         · exact ⟨ha, he⟩
-      | call p rq t =>
+      | call p tk rq t =>
         simp only
         split
         · refine ⟨?_, ?_⟩
@@ -298,7 +302,7 @@ theorem step_invSafe (P : Params) (hP : P.safeDrop.write = true ∧ P.safeDrop.n
             intro hs
             simp only at hs
             simp only [hs]
-            exact childFlags_safe P hP _ _
+            exact childFlags_safe P hP _ _ _
           · intro ev hev
             rcases List.mem_cons.1 hev with rfl | hev
             · exact ha
@@ -355,7 +359,7 @@ theorem step_invPerm (P : Params) (s : State) (i : Instr) (h : InvPerm s) : InvP
           · rw [primEvents_target hev] at ht; cases ht
           · exact h ev hev t ht
         · exact h
-      | call p rq t =>
+      | call p tk rq t =>
         simp only
         split
         · rename_i hc
@@ -422,10 +426,10 @@ theorem step_invRoot (P : Params) (f0 : CallFlags) (s : State) (i : Instr) (h : 
           · rw [primEvents_stack hev]; exact ha
           · exact he ev hev
         · exact ⟨ha, he⟩
-      | call p rq t =>
+      | call p tk rq t =>
         simp only
         split
-        · refine ⟨push _ (childFlags_le _ _ _ _), ?_⟩
+        · refine ⟨push _ (childFlags_le _ _ _ _ _), ?_⟩
           intro ev hev
           rcases List.mem_cons.1 hev with rfl | hev
           · exact ha
